@@ -9,6 +9,9 @@
 (* Sizes are counted in files.  Modes: "rollback" (n writes rolled back),  *)
 (* "supersede" (every key written twice in the transaction, committed: n   *)
 (* superseded contents), "conflict" (n writes, the commit loses).          *)
+(* Mode "commitcrash" belongs to C04: a transaction of n writes commits and the process is killed at every point of   *)
+(* the commit; the version records of a commit are ONE persistent step (one Badger transaction), so that afterwards *)
+(* all n keys are there or none (cmd/crash judges that; nothing is left to reclaim in this model).                   *)
 (* Variant "sharedchunk" (a seeded slip: the jobs share one chunk          *)
 (* variable and all see the last chunk) is what the check must refute.     *)
 (***************************************************************************)
